@@ -224,3 +224,6 @@ func vSliceOfLen(n int) []byte { return make([]byte, n) }
 func vChanPush(ch interface{}, v interface{}) {
 	reflect.ValueOf(ch).Send(reflect.ValueOf(v))
 }
+
+// vSentOn: number of sends the goroutine under analysis performed on ch (engine event log).
+func vSentOn(ch interface{}) int { return 0 }
